@@ -853,6 +853,17 @@ func (fc *FnCtx) binop(op token.Token, opType types.Type, resType types.Type, a,
 		}
 		return T(SInt, "(bitshr %s %s)", a.S, b.S)
 	case token.AND, token.OR, token.XOR, token.AND_NOT:
+		if op == token.AND && a.Sort == SInt {
+			// x & constant: exact (bit k of x is (x div 2^k) mod 2, two's complement)
+			if c, ok := yv.(*ssa.Const); ok && c.Value != nil {
+				if m := c.Int64(); m >= 0 {
+					return bitandConst(a, m)
+				}
+			}
+			if m, ok := intLiteral(a); ok && m >= 0 {
+				return bitandConst(b, m)
+			}
+		}
 		if a.Sort == SBool {
 			switch op {
 			case token.AND:
@@ -1391,4 +1402,37 @@ func (fc *FnCtx) selectOrdinal(x *ssa.Select) int {
 		}
 	}
 	return 0
+}
+
+// bitandConst: x & m for a non-negative constant m, as exact integer arithmetic.
+func bitandConst(x Term, m int64) Term {
+	if m == 0 {
+		return IntLit(0)
+	}
+	// low-bits mask 2^k-1: x mod 2^k
+	if m&(m+1) == 0 {
+		k := int64(0)
+		for (int64(1) << k) <= m {
+			k++
+		}
+		return T(SInt, "(mod %s %s)", x.S, pow2(k))
+	}
+	var parts []string
+	for k := int64(0); k < 63; k++ {
+		if m&(int64(1)<<k) != 0 {
+			parts = append(parts, fmt.Sprintf("(* %s (mod (div %s %s) 2))", pow2(k), x.S, pow2(k)))
+		}
+	}
+	if len(parts) == 1 {
+		return Term{parts[0], SInt}
+	}
+	return Term{"(+ " + strings.Join(parts, " ") + ")", SInt}
+}
+
+func intLiteral(t Term) (int64, bool) {
+	var v int64
+	if _, err := fmt.Sscanf(t.S, "%d", &v); err == nil && fmt.Sprint(v) == t.S {
+		return v, true
+	}
+	return 0, false
 }
